@@ -58,7 +58,7 @@ type memDB struct {
 	// pessimistic transaction locks
 	lockMu sync.Mutex
 	lockCv *sync.Cond
-	locks  map[string]*Transaction
+	locks  map[string]*txnState
 }
 
 func newMemDB(path string) *memDB {
@@ -66,7 +66,7 @@ func newMemDB(path string) *memDB {
 		path:     path,
 		cfs:      map[uint32]*memCF{},
 		cfByName: map[string]*memCF{},
-		locks:    map[string]*Transaction{},
+		locks:    map[string]*txnState{},
 	}
 	m.lockCv = sync.NewCond(&m.lockMu)
 	return m
@@ -453,7 +453,7 @@ var errLockTimeout = errors.New("Operation timed out: Timeout waiting to lock ke
 
 // lock acquires the key lock for owner. timeoutMs < 0 waits forever,
 // 0 does not wait.
-func (m *memDB) lock(owner *Transaction, cf uint32, key []byte, timeoutMs int64) error {
+func (m *memDB) lock(owner *txnState, cf uint32, key []byte, timeoutMs int64) error {
 	lk := lockKey(cf, key)
 	m.lockMu.Lock()
 	defer m.lockMu.Unlock()
@@ -491,7 +491,7 @@ func (m *memDB) lock(owner *Transaction, cf uint32, key []byte, timeoutMs int64)
 	}
 }
 
-func (m *memDB) unlockAll(owner *Transaction) {
+func (m *memDB) unlockAll(owner *txnState) {
 	m.lockMu.Lock()
 	for _, lk := range owner.held {
 		if m.locks[lk] == owner {
